@@ -364,7 +364,7 @@ pub fn reference(spec: &BlockSpec, inputs: &[InputData], script_tags: &[(usize, 
             }
             exact(vec![s(text.bytes().map(|b| b as u64).collect())])
         }
-        (FftStream { size }, [D::C32(x)]) => {
+        (FftStream { size, .. }, [D::C32(x)]) => {
             let n = 1usize << size;
             let mut out = Vec::new();
             for frame in x.chunks_exact(n) {
